@@ -31,6 +31,10 @@ func NewFrameWriter(w io.Writer) *frame.Writer              { return frame.NewWr
 func NewFrameClient(w io.Writer, r io.Reader) *frame.Client { return frame.NewClient(w, r) }
 func NewFrameServer(r io.Reader, w io.Writer) *frame.Server { return frame.NewServer(r, w) }
 
+// SetFrameGate installs (or, with nil, removes) the gate called at the
+// linearization points of frame.Client.Send.
+func SetFrameGate(g func(point string)) { frame.VerifGate = g }
+
 // internal/envelope
 type (
 	EnvelopeTransport = envelope.Transport
